@@ -29,6 +29,8 @@ def run(ctx):
     # preemption-bounded systematic search (every schedule with <= 1 preemption, yields before and after each operation)
     searches = [(p, 1, 250 if ctx.quick else 6000, {"post_yields": True}) for p in progs[: 6 if ctx.quick else 14]]
     life = gc.chanlife_part(ctx, ["C03."], 3 if ctx.quick else 5)
+    cfd = gc.chanfile_delivery_part(ctx, rng, ["C02.", "C03."])
+    multi = gc.multi_part(ctx, ["C03."])
     res = gc.run_and_judge(ctx, jobs, ["C03.", "C10.endmarker-before-last-item"], lambda evs: any(e["ev"] == "ret" and e["op"] == "receive" and e["res"] == "EOF" for e in evs) and any(e["ev"] == "ret" and e["op"] in ("send", "isclosed") for e in evs), None, searches=searches)
     gwrun.close_pool()
     ctx.coverage.update({
@@ -42,5 +44,7 @@ def run(ctx):
         "bounded_search": {"programs": res["bounded_searches"], "runs": res["bounded_search_runs"], "finished_exhaustively": res["bounded_searches_finished"]},
     })
     ctx.coverage["chanlife_replay"] = life
+    ctx.coverage["channel_file_delivery"] = cfd
+    ctx.coverage["multichannel_real"] = multi
     ctx.assumptions += gc.ASSUMPTIONS
     return "model_checking"
